@@ -249,6 +249,8 @@ func (s *Syncer[H]) sync(ctx context.Context) {
 	}
 
 	if storeHead.Height() >= subjHead.Height() {
+		// drop the pending heads the store is already past, if any
+		s.pending.Prune(storeHead.Height())
 		log.Warnw("sync attempt to an already synced header",
 			"synced_height", storeHead.Height(),
 			"attempted_height", subjHead.Height(),
@@ -327,6 +329,12 @@ func (s *Syncer[H]) processHeaders(
 		headers := headersRange.Get(to)
 		if len(headers) == 0 {
 			break
+		}
+
+		// skip cached headers the store is already past (see localHead)
+		if last := headers[len(headers)-1].Height(); last <= fromHead.Height() {
+			headersRange.Remove(last)
+			continue
 		}
 
 		// check if returned range is not adjacent to `fromHead`
